@@ -397,12 +397,23 @@ def nic_stubs(state):
     def ioctl(I, st, w, c, fd, req, ifr=None, *rest):
         # the kernel fills the request union at offset 16 of struct ifreq; flags are pinned (the 17 flag tests would fork 2^17
         # ways on a symbolic word, which has nothing to do with the name copy checked here)
+        st.log.append(("ioctl_fd", fd))
         if isinstance(ifr, cir.Ptr) and ifr.obj is not None and st.objs[ifr.obj].size >= 20:
             st.log.append(("ifr_name", [I.byte_at(st, ifr.obj, ifr.off + i) for i in range(16)]))      # what the kernel is asked about
             I.store(st, cir.Ptr(ifr.obj, ifr.off + 16), 2, z3.BitVecVal(0x1043, 16))
         return z3.BitVec(f"ioctl{len(st.log)}", 32)
 
-    return {"@PyArg_ParseTuple": parse_stub(state), "@strncpy": strncpy, "@socket": sym32("sock"), "@ioctl": ioctl, "@close": sym32("close"), "@Py_BuildValue": build,
+    def socket_(I, st, w, c, *a):
+        fd = z3.BitVec(f"sock{len(st.log)}", 32)
+        st.log.append(("socket", fd))
+        return fd
+
+    def close_(I, st, w, c, fd):
+        st.log.append(("close", fd))
+        return z3.BitVec(f"close{len(st.log)}", 32)
+
+    return {"@PyArg_ParseTuple": parse_stub(state), "@strncpy": strncpy, "@socket": socket_, "@ioctl": ioctl, "@close": close_, "@Py_BuildValue": build,
+            "@fcntl": lambda I, st, w, c, *a: z3.BitVecVal(0, 32), "@fcntl64": lambda I, st, w, c, *a: z3.BitVecVal(0, 32),
             "@llvm.memset.p0i8.i64": lambda I, st, w, c, *a: _memset(I, st, w, c, *a),
             "@PyErr_SetFromErrno": lambda *a: cir.NULL, "@psutil_PyErr_SetFromOSErrnoWithSyscall": lambda *a: cir.NULL, "@PyList_New": lambda I, st, w, c, n: cir.newobj(I, st, "list"),
             "@append_flag": lambda I, st, w, c, *a: z3.BitVec(f"append{len(st.log)}", 32) if st.log.append(("append",)) is None else None, "@_Py_Dealloc": cir.nop, "@Py_XDECREF": cir.nop}
@@ -436,6 +447,21 @@ def nic_name_c(ctx, fn, n):
                 want = [z3.BitVec(f"c{i}", 8) if ctx.symbolic else z3.BitVecVal(chars[i], 8) for i in range(n)] + [z3.BitVecVal(0, 8)]
                 if not I.oblige(st, z3.And(*[ent[1][i] == want[i] for i in range(n + 1)]), "nic-name: the name handed to the kernel in ifr_name is not the interface name"):
                     ok_name, bad_st = False, st
+    # the kernel is asked through a descriptor THIS call opened, and that descriptor is closed again before the call returns (one kept
+    # from an earlier call may belong to another network namespace by now, or have been closed by the program)
+    ok_fd = True
+    for st, ret in res:
+        socks = [x[1] for x in st.log if x[0] == "socket"]
+        closes = [x[1] for x in st.log if x[0] == "close"]
+        for fd in [x[1] for x in st.log if x[0] == "ioctl_fd"]:
+            if not I.oblige(st, z3.Or(*[fd == s_ for s_ in socks]) if socks else z3.BoolVal(False), "descriptor: ioctl() issued on a descriptor that socket() did not return during this call"):
+                ok_fd = False
+        for s_ in socks:
+            if not I.oblige(st, z3.Implies(s_ != -1, z3.Or(*[c_ == s_ for c_ in closes]) if closes else z3.BoolVal(False)), "descriptor: a socket opened by the call is still open when it returns"):
+                ok_fd = False
+    dfs = [f for f in I.findings if f[0].startswith("descriptor:")]
+    ctx.external("descriptor-opened-and-closed-by-the-call", ok_fd and not dfs, model_assignment(dfs[0][1], "c", n) if dfs else {}, detail=dfs[0][0] if dfs else "")
+    I.findings = [f for f in I.findings if f not in dfs]
     fid = [f for f in I.findings if f[0].startswith("nic-name:")]
     ctx.external("nic-name-passed-on", ok_name, model_assignment(fid[0][1], "c", n) if fid else {}, detail=fid[0][0] if fid else "")
     I.findings = [f for f in I.findings if f not in fid]
@@ -1076,13 +1102,33 @@ def ifaddrs_c(ctx, fail, nodes, conv):
 
 # ---- disk.c ---------------------------------------------------------------------------------------------------------------
 
-@harness("C17.partitions_c", quick=[dict(linelen=n) for n in (60, 1500, 4000)], thorough=[dict(linelen=n) for n in (10, 60, 1023, 1024, 1500, 4000, 4094)])
-def partitions_c(ctx, linelen):
+def _syscall_msg_limit():
+    """psutil_PyErr_SetFromOSErrnoWithSyscall(const char *syscall) formats "<strerror> (originated from <syscall>)" into a fixed
+    buffer with sprintf(): the longest `syscall` text it can take, computed from the current source of the helper"""
+    import re
+
+    import os
+
+    src = open(os.path.join(cir.REPO, "psutil", "_psutil_common.c")).read()
+    body = src[src.index("psutil_PyErr_SetFromOSErrnoWithSyscall(const char *syscall) {"):]
+    body = body[:body.index("\n}\n")]
+    m = re.search(r"char\s+fullmsg\[(\d+)\]", body)
+    if not m or "sprintf(fullmsg" not in body:
+        return None           # the helper no longer has that shape: no bound to hold callers to
+    return int(m.group(1)) - 1 - len(" (originated from )") - 64          # 64 >= the longest strerror() text of glibc
+
+
+@harness("C17.partitions_c", quick=[dict(linelen=n) for n in (60, 1500, 4000)] + [dict(linelen=60, fail=True, pathlen=n) for n in (17, 4000)],
+         thorough=[dict(linelen=n) for n in (10, 60, 1023, 1024, 1500, 4000, 4094)] + [dict(linelen=60, fail=True, pathlen=n) for n in (17, 900, 1100, 4000, 4095)])
+def partitions_c(ctx, linelen, fail=False, pathlen=17):
     """psutil_disk_partitions: each mount entry's device, mount point, type and options reach Python unmodified and in that order,
-    for a mount line of `linelen` bytes (glibc's getmntent() handles lines up to 4095 bytes; a caller-supplied buffer must not be smaller)"""
+    for a mount line of `linelen` bytes (glibc's getmntent() handles lines up to 4095 bytes; a caller-supplied buffer must not be smaller).
+    fail: setmntent() fails for a mount-table path of `pathlen` bytes (any path up to PATH_MAX can be passed in): the outcome is a
+    Python exception, whatever the length -- text handed to the fixed-size message buffer of the common error helper must fit it"""
     mod = module("arch/linux/disk.c")
     names = ["fsname", "dir", "type", "opts"]
-    state = {"strings": [lambda I, st: _cstr(I, st, "path", b"/proc/self/mounts")], "objs": {}}
+    mtab = (b"/proc/self/mounts" if not fail else b"/" + b"m" * (pathlen - 1))
+    state = {"strings": [lambda I, st: _cstr(I, st, "path", mtab)], "objs": {}}
 
     def _cstr(I, st, tag, data):
         k = st.new_obj(tag, len(data) + 1, {i: z3.BitVecVal(b, 8) for i, b in enumerate(data + b"\0")})
@@ -1128,12 +1174,56 @@ def partitions_c(ctx, linelen):
         st.log.append(("build", cir.const_cstr(I, st, fmt), a))
         return cir.newobj(I, st, "tuple")
 
+    def snprintf(I, st, w, c, dst, size, fmt, *a):
+        # literal text and %s conversions of C strings whose length is concrete here
+        f, out, args = cir.const_cstr(I, st, fmt), b"", list(a)
+        parts = f.split("%s")
+        for j, lit in enumerate(parts):
+            if "%" in lit:
+                raise NotImplementedError("snprintf format " + repr(f))
+            out += lit.encode("latin-1")
+            if j < len(parts) - 1:
+                arg = args.pop(0)
+                cir.cstring_obligations(I, st, arg, "snprintf(%s)")
+                t = cir.const_cstr(I, st, arg)
+                if t is None:
+                    raise NotImplementedError("snprintf: %s argument with symbolic length")
+                out += t.encode("latin-1")
+        n = z3.simplify(size).as_long()
+        data = out[:max(n - 1, 0)] + b"\0" if n else b""
+        o = st.objs[dst.obj]
+        I.oblige(st, z3.BoolVal(dst.off + len(data) <= o.size), f"snprintf: {len(data)} bytes written into the {o.size - dst.off} bytes left of {dst.obj.split('#')[0]}")
+        for i_, b_ in enumerate(data[:max(o.size - dst.off, 0)]):
+            I.store(st, cir.Ptr(dst.obj, dst.off + i_), 1, z3.BitVecVal(b_, 8))
+        return z3.BitVecVal(len(out), 32)
+
+    def os_error_with_syscall(I, st, w, c, msg):
+        cir.cstring_obligations(I, st, msg, "psutil_PyErr_SetFromOSErrnoWithSyscall")
+        t, lim = cir.const_cstr(I, st, msg), _syscall_msg_limit()
+        if t is None:
+            raise NotImplementedError("error helper: text with symbolic length")
+        if lim is not None:
+            I.oblige(st, z3.BoolVal(len(t) <= lim), f"psutil_PyErr_SetFromOSErrnoWithSyscall: a {len(t)}-byte text is formatted with sprintf() into the helper's fixed buffer (room for {lim}): write past the end of that stack buffer")
+        st.log.append(("oserror",))
+        return cir.NULL
+
+    def set_from_errno(I, st, w, c, *a):
+        st.log.append(("oserror",))
+        return cir.NULL
+
     stubs = {"@PyList_New": lambda I, st, w, c, n: cir.newobj(I, st, "list"), "@PyArg_ParseTuple": parse_stub(state), "@PyEval_SaveThread": lambda I, st, w, c: cir.newobj(I, st, "tstate"),
-             "@PyEval_RestoreThread": cir.nop, "@setmntent": lambda I, st, w, c, *a: cir.newobj(I, st, "FILE"), "@endmntent": lambda I, st, w, c, *a: z3.BitVecVal(1, 32), "@getmntent": getmntent,
+             "@snprintf": snprintf, "@psutil_PyErr_SetFromOSErrnoWithSyscall": os_error_with_syscall, "@fprintf": lambda I, st, w, c, *a: z3.BitVecVal(0, 32),
+             "@PyEval_RestoreThread": cir.nop, "@setmntent": (lambda I, st, w, c, *a: cir.NULL) if fail else (lambda I, st, w, c, *a: cir.newobj(I, st, "FILE")), "@endmntent": lambda I, st, w, c, *a: z3.BitVecVal(1, 32), "@getmntent": getmntent,
              "@getmntent_r": getmntent_r, "@PyUnicode_DecodeFSDefault": decode, "@Py_BuildValue": build, "@PyList_Append": lambda I, st, w, c, *a: z3.BitVecVal(0, 32), "@PyErr_Format": lambda *a: cir.NULL,
-             "@PyErr_SetFromErrnoWithFilename": lambda *a: cir.NULL, "@psutil_debug": cir.nop, "@_Py_Dealloc": cir.nop, "@Py_XDECREF": cir.nop, "@Py_DecRef": cir.nop, "@Py_IncRef": cir.nop}
+             "@PyErr_SetFromErrnoWithFilename": set_from_errno, "@psutil_debug": cir.nop, "@_Py_Dealloc": cir.nop, "@Py_XDECREF": cir.nop, "@Py_DecRef": cir.nop, "@Py_IncRef": cir.nop}
     I = cir.Interp(mod, stubs)
     res = I.run("@psutil_disk_partitions", [cir.NULL, cir.NULL])
+    if fail:
+        # the outcome is a Python exception: NULL returned with an OSError set, and nothing written out of bounds on the way
+        good = bool(res) and all(isinstance(ret, cir.Ptr) and ret.obj is None and any(x[0] == "oserror" for x in st.log) for st, ret in res)
+        report(ctx, I, ["memory-in-bounds", "cstring-within-record"], lambda m: {})
+        ctx.external("failure-is-a-python-exception", good, {}, detail=f"setmntent() failing for a {pathlen}-byte path: {[(str(ret)[:40], [x[0] for x in st.log][-3:]) for st, ret in res][:2]}")
+        return
     ok, why = bool(res), "no completed path"
     nb = 0
     for st, ret in res:
